@@ -82,10 +82,12 @@ def cases(tier):
     names = Q.members(tier)
     if tier == "quick":
         names = list(Q.U1())[:7]
-    return [(backend, S, tier) for backend in ("sql", "kv") for S in Q.subsets(names)] + SCHEDMODE.cases(tier)
+    return [(backend, S, tier) for backend in ("sql", "kv") for S in Q.subsets(names)] + SCHEDMODE.cases(tier) + [("midstream", "sql", (), tier)]
 
 
 def describe(case):
+    if case[0] == "midstream":
+        return {"mode": "midstream", "backend": "sql"}
     if case[0] == "sched":
         return SCHEDMODE.describe(case)
     return {"backend": case[0], "store": list(case[1]), "tier": case[2]}
@@ -211,7 +213,63 @@ def _s_judge(x, name, backend, viol, cid, sig):
 SCHEDMODE = SchedMode(S_SCRIPTS, _s_build, _s_judge, max_limit=MAX_LIMIT)
 
 
+def run_midstream(case):
+    """SQL: the engine fails while the result of a REQ is being read (row k of the stream): the client still gets at most its limit, no event
+    twice, and an answer (EOSE or NOTICE)"""
+    from ..harness import World
+
+    viol = []
+    n = 0
+    cid = "midstream|sql"
+    for lim in (1, 2, 3, 5, None):
+        for k in (1, 2, 3, 4):
+            w = World("sql", storage_options={"stats_interval": 1e15}, max_limit=MAX_LIMIT, message_timeout=1e300)
+            try:
+                c = w.connect("c", "1.1.1.1")
+                w.run(1e6)
+                for ev in S_EVS:
+                    w.send("c", ["EVENT", ev], 1e6)
+                f = {"kinds": [1]}
+                if lim is not None:
+                    f["limit"] = lim
+                n0 = len(c.transcript)
+                w.sql.fetch_fault = {"at": k}
+                try:
+                    w.send("c", ["REQ", "q", f], 1e6)
+                finally:
+                    w.sql.fetch_fault = None
+                n += 1
+                got = []
+                answered = False
+                for kind, _, p in c.transcript[n0:]:
+                    if kind == "send":
+                        m = json.loads(p)
+                        if m[0] == "EVENT" and m[1] == "q":
+                            got.append(m[2]["id"])
+                        elif m[0] in ("EOSE", "NOTICE"):
+                            answered = True
+                want = eff(f)
+                sig = "limit=%r|fault@row%d" % (lim, k)
+                if len(got) > want or len(set(got)) != len(got):
+                    viol.append({"case": cid, "clause": "at-most-limit", "sig": sig,
+                                 "detail": "limit %r (effective %d), engine failure while row %d was read: %d events sent (%d distinct)" % (lim, want, k, len(got), len(set(got)))})
+                if not answered and c.closed_by_relay is None:
+                    viol.append({"case": cid, "clause": "answered-with-eose", "sig": sig, "detail": "REQ neither answered nor refused after a failure while row %d was read" % k})
+                # the next REQ on the same connection is served normally
+                n0 = len(c.transcript)
+                w.send("c", ["REQ", "r", {"kinds": [1], "limit": 2}], 1e6)
+                again = [json.loads(p)[2]["id"] for kind, _, p in c.transcript[n0:] if kind == "send" and p.startswith('["EVENT","r"')]
+                if len(again) != 2:
+                    viol.append({"case": cid, "clause": "limit-does-not-starve-a-filter", "sig": sig + "|next", "detail": "the REQ after the failed one received %d events, expected 2" % len(again)})
+            finally:
+                w.close()
+    return {"id": cid, "viol": viol, "outcome": None, "evals": n, "states": n, "transitions": n, "nontrivial": True, "desc": {"mode": "midstream", "backend": "sql"},
+            "extra": {"midstream_faulted_reqs": n}, "sample": {"mode": "midstream", "reqs": n}}
+
+
 def run_case(case):
+    if case[0] == "midstream":
+        return run_midstream(case)
     if case[0] == "sched":
         return SCHEDMODE.run(case)
     backend, S, tier = case
@@ -246,7 +304,8 @@ def coverage(tier, agg):
                 "multi-condition x limit in {absent,0,1,2,3,4,10}; 2- and 3-filter REQs with mixed limits); oracle: events attributable to one "
                 "filter <= min(limit,max_limit); single filter: no left-out strict match newer than a sent one; matches <= limit => none missing; "
                 "non-trivial case = store where at least one filter has more matches than its effective limit" + SCHEDMODE.rule() + ": two connections ask at once with "
-                "different limits over five matching events; each answer has exactly min(limit, max_limit) events, the newest ones") % (
+                "different limits over five matching events; each answer has exactly min(limit, max_limit) events, the newest ones | midstream (SQL): the engine fails while row k = 1..4 of a "
+                "REQ's result is being read, limits {1,2,3,5,absent}: at most the limit, nothing twice, the REQ is answered, the next REQ is served") % (
                     7 if tier == "quick" else len(Q.members(tier)), len(filters_for(tier))),
         "limits": [str(x) for x in LIMITS],
         "backends": ["sql", "kv"],
@@ -254,7 +313,9 @@ def coverage(tier, agg):
 
 
 def replay(desc):
-    if desc.get("mode") == "sched":
+    if desc.get("mode") == "midstream":
+        r = run_case(("midstream", "sql", (), "quick"))
+    elif desc.get("mode") == "sched":
         r = run_case(SCHEDMODE.from_desc(desc))
     else:
         r = run_case((desc["backend"], tuple(desc["store"]), desc.get("tier", "quick")))
